@@ -458,6 +458,11 @@ def _clone_s(s, vmap, refsub, ret, endlabel, newlocals, tag, tail):
     lab = s.label
     if s.k in ('label', 'goto') and lab is not None:
         lab = '%s@%s' % (lab, tag)              # the helper's own labels are private to this expansion
+    # the initialiser of a for statement declares variables that its condition, increment and body use: clone it first
+    init_clone = None
+    if s.init is not None:
+        init_clone = _clone_s(s.init, vmap, refsub, ret, endlabel, newlocals, tag, False) if isinstance(s.init, (S, list)) \
+            else _clone_e(s.init, vmap, refsub)
     c = S(s.k, e=_clone_e(s.e, vmap, refsub) if s.e is not None else None, label=lab, file=s.file, line=s.line,
           static=s.static, macro=s.macro, uid=('%s@%s' % (s.uid, tag)) if s.uid is not None else None,
           endline=s.endline, var=s.var)
@@ -469,8 +474,7 @@ def _clone_s(s, vmap, refsub, ret, endlabel, newlocals, tag, tail):
             setattr(c, attr, _clone_s(x, vmap, refsub, ret, endlabel, newlocals, tag,
                                       inner_tail if not (s.k == 'if' and attr == 'body') else False))
     if s.init is not None:
-        c.init = _clone_s(s.init, vmap, refsub, ret, endlabel, newlocals, tag, False) if isinstance(s.init, (S, list)) \
-            else _clone_e(s.init, vmap, refsub)
+        c.init = init_clone
     if s.inc is not None:
         c.inc = _clone_e(s.inc, vmap, refsub) if not isinstance(s.inc, (S, list)) else s.inc
     return c
